@@ -78,6 +78,15 @@ def generate(tier, seed, work, stats):
         for i, prods in enumerate(keyed):
             if prods and (k <= 1 or (i + seed) % k == 0):
                 cases.append(dict(kind="fcfg", prods=prods, family="FCFGGen-free", free=True))
+    from harness.drivers import c08
+    for prods in c08.random_grammars(1200 if tier == "quick" else 15000, seed + 21, maxp=5, maxb=3):
+        prods = [p for p in prods if all(x in ("S", "A", "B", "a", "b") for x in [p[0]] + p[1])]
+        if prods and prods[0][0] == "S":
+            cases.append(dict(kind="fcfg", prods=[[h, "-", b, ["-"] * len(b)] for h, b in prods], family="random-free", free=True))
+    directed = [[["S", ["X", "X", "b"]], ["X", ["Y", "Y"]], ["Y", []]], [["S", ["A", "B"]], ["A", ["B", "B"]], ["B", []], ["B", ["b"]]],
+                [["S", ["A", "S", "A"]], ["S", ["b"]], ["A", ["B"]], ["B", ["A"]], ["B", []]]]
+    for prods in directed:
+        cases.append(dict(kind="fcfg", prods=[[h, "-", b, ["-"] * len(b)] for h, b in prods], family="directed-free", free=True))
     return cases
 
 
@@ -169,7 +178,7 @@ def build_fcfg(prods):
             elif a != "-":
                 fs.add_content("n", FeatureStructure(a))
             return fs
-        b = [Variable(x) if x.isupper() else Terminal(x) for x in body]
+        b = [Variable(x) if x[0].isupper() else Terminal(x) for x in body]
         plist.append(FeatureProduction(Variable(h), b, ann(ha), [ann(a) for a in banns]))
     return FCFG(start_symbol=Variable("S"), productions=set(plist))
 
@@ -195,7 +204,7 @@ def replay(case):
     words = []
     for n in range(4):
         words.extend(itertools.product(["a", "b"], repeat=n))
-    ev = {"op": "fcfg_contains", "prods": prods, "vars": ["S", "A", "B"], "terms": ["a", "b"], "start": "S",
+    ev = {"op": "fcfg_contains", "prods": prods, "vars": ["S", "A", "B", "X", "Y"], "terms": ["a", "b"], "start": "S",
           "dom": ["sg", "pl"], "L": 3, "words": [list(w) for w in words], "acc": [], "free": bool(case.get("free"))}
     acc = []
     for w in words:
@@ -211,7 +220,7 @@ def replay(case):
     if case.get("free") and "exc" not in ev:
         from pyformlang.cfg import CFG, Production, Variable, Terminal
         g = CFG(start_symbol=Variable("S"), productions={
-            Production(Variable(h), [Variable(x) if x.isupper() else Terminal(x) for x in body]) for h, _, body, _ in prods})
+            Production(Variable(h), [Variable(x) if x[0].isupper() else Terminal(x) for x in body]) for h, _, body, _ in prods})
         ev["cfgacc"] = [list(w) for w in words if g.contains(list(w))]
     return [ev]
 
